@@ -41,8 +41,8 @@ def run_session_states(P):
     for c in rs.calls(r'^ripd::session::emit_event$'):
         if event_kind_of(rs, c.args[0]) == 'SessionEnded':
             term_blocks[c.bb] = c.line
-    if len(term_blocks) < 2:
-        raise CheckError('C07.2: explicit SessionEnded emissions in run_session: found %d, floor is 2' % len(term_blocks))
+    if len(term_blocks) < 1:
+        raise CheckError('C07.2: explicit SessionEnded emissions in run_session: found %d, at least 1 is needed to read the function at all' % len(term_blocks))
     kernel_loops = []
     for h, body in rs.loops().items():
         if any(c.bb in body for c in rs.calls(r'^rip_kernel::Session::next_event$')):
@@ -270,6 +270,35 @@ def run(ctx):
         counts_here = {cnt for (b, cnt, fl) in seen if b == c.bb}
         ok = any(rs.dom(l.bb, c.bb) for l in loop) and counts_here <= {0}
         ctx.ob('C07.3', rs, 'cursor-after-loop-before-end', ok, 'cursor_updated is dominated by the loop call and precedes the terminal frame', line=c.line)
+    # a thread run that tried to compile its context reaches the provider only with the compiled frame written:
+    # explore (block, terminal count, flag, compile attempted?) and stop at the compiled-frame appends
+    attempts = via_helper(r'compile_context_bundle_for_run$') + [s_ for s_ in rs.calls(r'compile_context_bundle_for_run$')]
+    if not attempts:
+        attempts = sel      # the decision frame is written by the compile step: having decided is having attempted
+    att_blocks = {a.bb for a in attempts}
+    comp_blocks = {c.bb for c in comp}
+    succ_states = st_['succ_states']
+    seen4 = set()
+    work4 = [(0, 0, None, False)]
+    leak = None
+    while work4:
+        b4, c4, f4, a4 = work4.pop()
+        if (b4, c4, f4, a4) in seen4:
+            continue
+        seen4.add((b4, c4, f4, a4))
+        if b4 in comp_blocks:
+            continue
+        if b4 in att_blocks:
+            a4 = True
+        if a4 and any(l.bb == b4 for l in loop):
+            leak = b4
+            break
+        for (s4, c5, f5) in succ_states(b4, c4, f4):
+            work4.append((s4, c5, f5, a4))
+    ctx.ob('C07.3', rs, 'compiled-before-provider', leak is None,
+           'once a run has tried to compile its context, the provider loop is reachable only past append_context_compiled (explored %d states, flag-correlated)' % len(seen4) if leak is None else
+           'the provider loop is reachable after a compile attempt WITHOUT the compiled frame (a failed compile falls through to the provider): the thread records a run that reached the provider with no selection / compiled frames',
+           line=loop[0].line)
     # compiled bundle emitted only when compile succeeded: selection/compiled not in loops
     for c in sel + comp + cur:
         ctx.ob('C07.3', rs, 'once:' + c.name, not rs.in_loop(c.bb), '%s is outside loops (once per run)' % c.name, line=c.line)
